@@ -32,6 +32,7 @@ class Parser:
         self._op_code = OpCode.NOP
         self._code_gen = CodeGen()
         self._tokens = iter([])
+        self._nesting = 0
         self._command_map = {
             TokenTypes.ASSIGN: self._assignment,
             TokenTypes.BREAK: self._break,
@@ -63,6 +64,7 @@ class Parser:
         self._context.clear()
         self._code_gen.clear()
         self._error_output = ''
+        self._nesting = 0
         self._load_runtime()
         self._tokens = Lex(input_string).tokens()
         self._current_token = Token(TokenTypes.UNKNOWN)
@@ -499,7 +501,9 @@ class Parser:
         return self.next_token()
 
     def _routine_definition(self, name):
-        if self._context.in_routine():
+        # The loader moves a routine's code out of line, so that a definition
+        # inside another command would break that command's jumps.
+        if self._context.in_routine() or self._nesting > 0:
             return self.trigger_error('Nested definition not allowed.')
 
         self._context.enter_routine()
@@ -537,9 +541,14 @@ class Parser:
         return True
 
     def command_seq(self) -> bool:
-        if not self._current_token.is_a(TokenTypes.BEGIN):
-            return self._command()
-        return self.compound_command()
+        # The commands belong to an enclosing if, repeat, routine, or block.
+        self._nesting += 1
+        try:
+            if not self._current_token.is_a(TokenTypes.BEGIN):
+                return self._command()
+            return self.compound_command()
+        finally:
+            self._nesting -= 1
 
     def compound_command(self) -> bool:
         self.next_token()
